@@ -489,3 +489,40 @@ def r_stomp_all(cx):
           "CoordinateSet::stomp does not overwrite whole tuples with NaN (%s): after a stack underflow some elements of "
           "the operands stay finite" % (", ".join(w[1] for w in partial) or "no set_coord(i, nan) in a loop"), cx.where(f.d["span"]))
     cx.count("R-STOMP-ALL", "stomp_writes", len(writes))
+
+
+@rule("R-SUBSET-DIM", ["C19"])
+def r_subset_dim(cx):
+    """A container of d-dimensional tuples specialises the CoordinateSet accessors only up to its own dimension: `xy` /
+    `set_xy` always, `xyz` / `set_xyz` only for d >= 3, `xyzt` / `set_xyzt` only for d >= 4. For the missing dimensions
+    the trait defaults go through get_coord / set_coord, which supply the documented fill values (height 0, time NaN);
+    a 2D container that forwards `xyz` to the tuple reports a NaN height and wipes the tuple on `set_xyz`."""
+    need = {"xy": 2, "set_xy": 2, "xyz": 3, "set_xyz": 3, "xyzt": 4, "set_xyzt": 4}
+    impls = {}
+    for name in cx.f.fn_names():
+        if " as coordinate::set::CoordinateSet>::" not in name:
+            continue
+        ty, meth = name.split(" as coordinate::set::CoordinateSet>::")
+        impls.setdefault(ty, {})[meth] = name
+    n = 0
+    for ty, ms in sorted(impls.items()):
+        if "dim" not in ms:
+            continue
+        import elems as E
+        g = cx.f.fn(ms["dim"])
+        rt = E.return_term(g)
+        d = mir.strip_refs(rt)[2] if rt is not None and mir.strip_refs(rt)[0] == "const" and isinstance(mir.strip_refs(rt)[2], int) else None
+        if d is None:
+            continue
+        # adapters that raise the dimension (T, f64) are judged by their own dim() as well
+        for meth, k in sorted(need.items()):
+            if meth not in ms:
+                continue
+            n += 1
+            ok = d >= k
+            cx.ob("R-SUBSET-DIM", "%s/%s" % (ty.strip("<"), meth), ok,
+                  "%s (dim %d) specialises %s" % (ty.strip("<"), d, meth) if ok else
+                  "%s has dimension %d but specialises %s (which needs %d): the accessor by-passes get_coord / set_coord and "
+                  "their fill values - xyz() reports a NaN height, set_xyz() fills the whole tuple with NaN" % (
+                      ty.strip("<"), d, meth, k), cx.where(cx.f.fn(ms[meth]).d["span"]))
+    cx.count("R-SUBSET-DIM", "specialised_accessors", n)
